@@ -758,8 +758,58 @@ def lookalikes(ctx, clock, classes):
     clock.auto = None
 
 
+def many_failures(ctx, clock, classes):
+    """more failures than the display keeps tracebacks for (128): the counts keep being rendered, also for failures that
+    arrive after a rendering that showed them still running"""
+    KN = ["console", "html", "ipython"]
+    for kind in range(3):
+        for nfail in (127, 128, 129, 134):
+            clock.auto, clock.log = F(0), []
+            sink, stdout = [], io.StringIO()
+            obs = make_obs(kind, F(10 ** 9), classes, sink, delay=0.0005)    # renders only when something changed
+            sc = ("many",)
+            ctx.case(("many-failures", kind, nfail))
+            with contextlib.redirect_stdout(stdout):
+                obs.__enter__()
+                try:
+                    obs.increment_total(section="run", scope=sc, amount=nfail)
+                    for i in range(nfail - 4):
+                        obs.increment_running(section="run", scope=sc)
+                        obs.increment_failed(section="run", scope=sc, exception=mk_exc(i))
+                    realtime.sleep(0.01)
+                    for i in range(4):
+                        obs.increment_running(section="run", scope=sc)
+                    realtime.sleep(0.02)               # a rendering shows the last four running
+                    for i in range(4):                 # ... and the run ends with their failures
+                        obs.increment_failed(section="run", scope=sc, exception=mk_exc(nfail - 4 + i))
+                finally:
+                    obs.__exit__(None, None, None)
+            names = {(SEC["run"], scope_str(sc)): 0}
+            try:
+                if kind == 0:
+                    chunks = re.split(r"(?m)^(?=uberjob, elapsed )", stdout.getvalue())
+                    renders = [parse_console(c, names) for c in chunks if c.startswith("uberjob, elapsed")]
+                elif kind == 1:
+                    renders = [parse_html(b, names) for b in sink]
+                else:
+                    renders = [parse_ipy(obs, names)] if obs._widget_cache else []
+                rows = []
+                for rnd in renders:
+                    rr_ = [r for s_, rr in rnd for r in rr if r[0] == 0]
+                    if rr_ or kind != 0:
+                        rows = rr_
+                shown = [(r[2], r[5], r[4]) for r in rows]
+            except Exception as e:      # noqa
+                shown = "unparsable: %s: %s" % (type(e).__name__, e)
+            if shown != [(0, nfail, nfail)]:
+                ctx.fail("many-failures:%s" % KN[kind], "%s observer: %d failed of %d; the last rendering shows (completed, failed, total) = %r"
+                         % (KN[kind], nfail, nfail, shown), {"kind": KN[kind], "failures": nfail, "shown": repr(shown)})
+    clock.auto = None
+
+
 def threaded(ctx, sp, pool, clock, classes, pool_index):
     lookalikes(ctx, clock, classes)
+    many_failures(ctx, clock, classes)
     slow_sink(ctx, sp, pool, clock, classes, pool_index)
     _threaded(ctx, sp, pool, clock, classes, pool_index)
 
